@@ -491,5 +491,26 @@ theorem liEtal_d95_cap_false :
     linarith
   nlinarith
 
+/-! ## non-vacuity of the hypotheses used above -/
+
+/-- log-normal: σ = 0.27 (the value used by wang_etal), d50 = 1 mm -/
+example : ∃ d50 sigma : ℝ, 0 < d50 ∧ 0 < sigma := ⟨0.001, 0.27, by norm_num, by norm_num⟩
+
+/-- the fit theorems: a cap that bites (d_max below the 95th percentile of the log-normal with d50 = 1, σ = 1) -/
+example : ∃ d50 dmax sigma : ℝ, 0 < d50 ∧ 0 < dmax ∧ dmax < lnD95 d50 sigma := by
+  refine ⟨1, 1, 1, by norm_num, by norm_num, ?_⟩
+  simp only [lnD95, Num.real_exp, Num.real_log, Num.real_ofSci]
+  rw [Real.log_one, zero_add]
+  have : (0 : ℝ) < 1.6449 * 1 := by norm_num
+  calc (1 : ℝ) = Real.exp 0 := Real.exp_zero.symm
+    _ < Real.exp (1.6449 * 1) := Real.exp_lt_exp.mpr this
+
+/-- sintef with one phase absent: 3 cm orifice, 0.05 m³/s of a 600 kg/m³ oil into 1030 kg/m³ water -/
+example : ∃ d0 qOil rhoOil rho : ℝ, 0 < d0 ∧ 0 < qOil ∧ 0 < rho ∧ rhoOil < rho :=
+  ⟨0.03, 0.05, 600, 1030, by norm_num, by norm_num, by norm_num, by norm_num⟩
+
+/-- legacy truncation: a three-bin distribution where the two largest bins exceed d_max = 2 -/
+example : (truncate (2 : ℝ) [1, 3, 4] [0.2, 0.3, 0.5]).2.sum = ([0.2, 0.3, 0.5] : List ℝ).sum :=
+  (truncate_conserves 2 [1, 3, 4] [0.2, 0.3, 0.5] rfl).1
 
 end TamocV.Props.C16
